@@ -81,6 +81,8 @@ impl vstd::std_specs::cmp::OrdSpecImpl for FringeNode {
 //@ with
 ) -> (r: Vec<(usize, ShortestPathInfo<usize>)>)
 //@ spec
+    requires
+        with_paths ==> old(paths)@.len() == distances@.len(),
     ensures
         // one entry (k, distances[k]) for every k whose distance is not f64::MAX, in increasing k; no other entry
         forall|j: int| 0 <= j < r@.len() ==> (#[trigger] r@[j]).0 < distances@.len() && !feq(distances@[r@[j].0 as int], f64_max())
@@ -129,6 +131,13 @@ pub open spec fn item_ok<T: Eq + PartialOrd + Send + Sync, A: Clone>(g: Graph<T,
     &&& it.node_index < g.n()
     &&& (it.node_index == source && fneg(it.distance) == 0.0f64)
         || exists|i: int| #[trigger] extends(g, weighted, hist, i, it.node_index, fneg(it.distance))
+}
+// d passes the cutoff test: there is no cutoff, or d is not greater than it
+pub open spec fn within_cutoff(cutoff: Option<f64>, d: f64) -> bool {
+    match cutoff {
+        Some(c) => !flt(c, d),
+        None => true,
+    }
 }
 pub open spec fn reported(dist: Seq<f64>, u: int) -> bool {
     0 <= u < dist.len() && !feq(dist[u], f64_max())
@@ -213,10 +222,10 @@ pub proof fn lemma_extends_mono<T: Eq + PartialOrd + Send + Sync, A: Clone>(g: G
 ) -> Result<Vec<(usize, ShortestPathInfo<usize>)>, Error>
 //@ with
 ) -> (r: Result<Vec<(usize, ShortestPathInfo<usize>)>, Error>)
-//@ rewrite count=2
-f64::MAX;
+//@ rewrite count=any
+f64::MAX
 //@ with
-vf64_max();
+vf64_max()
 //@ rewrite
         distance: -0.0,
 //@ with
@@ -225,10 +234,6 @@ vf64_max();
 let d = -fringe_item.distance;
 //@ with
 let d = core::ops::Neg::neg(fringe_item.distance);
-//@ rewrite
-if dist[v] != f64::MAX {
-//@ with
-if dist[v] != vf64_max() {
 //@ spec
     requires
         graph.wf_nodes(),
@@ -338,10 +343,22 @@ for adj in row_it: graph.get_successor_nodes_by_index(&v)
 //@ extract fn src/algorithms/shortest_path/dijkstra.rs get_contractory_paths_error nobody
 //@ head
 #[verifier::external_body]
+//@ rewrite
+-> Error
+//@ with
+-> (e: Error)
+//@ spec
+    ensures e.kind == ErrorKind::ContradictoryPaths,
 //@ end
 //@ extract fn src/algorithms/shortest_path/dijkstra.rs add_u_to_v_paths_and_append_v_paths_to_u_paths nobody
 //@ head
 #[verifier::external_body]
+//@ spec
+    requires
+        u < old(paths)@.len(),
+        v < old(paths)@.len(),
+    ensures
+        final(paths)@.len() == old(paths)@.len(),
 //@ end
 //@ extract fn src/algorithms/shortest_path/dijkstra.rs convert_shortest_path_info_index_to_t nobody
 //@ head
@@ -349,19 +366,159 @@ for adj in row_it: graph.get_successor_nodes_by_index(&v)
 //@ end
 
 // A5: the full Dijkstra (path bookkeeping uses closures over &mut) and the index->name translation are left unverified
-//@ extract fn src/algorithms/shortest_path/dijkstra.rs dijkstra nobody
-//@ head
+// R-ext (A5): `new_paths_v.iter_mut().for_each(|pv| pv.push(u))` (closure over &mut): assumed to append u to every path
 #[verifier::external_body]
+pub fn vpush_to_all(paths: &mut Vec<Vec<usize>>, u: usize)
+    ensures final(paths)@.len() == old(paths)@.len(),
+{ paths.iter_mut().for_each(|pv| pv.push(u)); }
+
+//@ extract fn src/algorithms/shortest_path/dijkstra.rs dijkstra props=C03,C04,C08,C20
+//@ head
+#[verifier::exec_allows_no_decreases_clause]
 //@ rewrite
 ) -> Result<Vec<(usize, ShortestPathInfo<usize>)>, Error>
 //@ with
 ) -> (r: Result<Vec<(usize, ShortestPathInfo<usize>)>, Error>)
+//@ rewrite count=any
+f64::MAX
+//@ with
+vf64_max()
+//@ rewrite
+        distance: -0.0,
+//@ with
+        distance: core::ops::Neg::neg(0.0),
+//@ rewrite
+let d = -fringe_item.distance;
+//@ with
+let d = core::ops::Neg::neg(fringe_item.distance);
+//@ rewrite
+            if cutoff.map_or(false, |c| vu_dist > c) {
+                continue;
+            }
+            if
+//@ with
+            if (match cutoff { Some(c) => vu_dist > c, None => false }) {
+            } else if
+//@ rewrite
+new_paths_v.iter_mut().for_each(|pv| pv.push(u));
+//@ with
+vpush_to_all(&mut new_paths_v, u);
+//@ rewrite
+for adj in graph.get_successor_nodes_by_index(&v)
+//@ with
+for adj in row_it: graph.get_successor_nodes_by_index(&v)
 //@ spec
     requires
         graph.wf_nodes(),
         graph.wf_rows(),
         source < graph.n(),
         target.is_some() ==> target.unwrap() < graph.n(),
+    ensures
+        // [C04.dijkstra.error_is_contradictory_paths]
+        r.is_err() ==> is_err_kind(r, ErrorKind::ContradictoryPaths),
+        // [C04.dijkstra.sound, C03.consumers.dijkstra_reads_successor_rows]
+        r.is_ok() ==> exists|hist: Seq<(usize, f64)>| #[trigger] chain_ok(*graph, weighted, source, hist) && forall|j: int| 0 <= j < r.unwrap()@.len() ==>
+            hist.contains(((#[trigger] r.unwrap()@[j]).0, r.unwrap()@[j].1.distance)),
+        // [C04.dijkstra.reported_in_range]
+        r.is_ok() ==> forall|j: int| 0 <= j < r.unwrap()@.len() ==> (#[trigger] r.unwrap()@[j]).0 < graph.n(),
+        // [C08.dijkstra.cutoff_respected]
+        // with a cutoff c every reported node other than the source has a distance that is not greater than c
+        r.is_ok() ==> forall|j: int| 0 <= j < r.unwrap()@.len() ==> (#[trigger] r.unwrap()@[j]).0 == source || within_cutoff(cutoff, r.unwrap()@[j].1.distance),
+        // [C08.dijkstra.no_paths_unless_asked]
+        r.is_ok() && !with_paths ==> forall|j: int| 0 <= j < r.unwrap()@.len() ==> (#[trigger] r.unwrap()@[j]).1.paths@.len() == 0,
+//@ before while let Some(fringe_item) = fringe.pop() {
+    let ghost mut hist: Seq<(usize, f64)> = Seq::empty();
+    proof {
+        assert(heap_view(&fringe) =~= vstd::multiset::Multiset::<FringeNode>::empty().insert(FringeNode { node_index: source, count: 0, distance: fneg(0.0f64) }));
+    }
+//@ loop 1
+        invariant
+            // [C04.dijkstra.invariants, C04.dijkstra.settled_nodes_are_expanded_once, C08.dijkstra.cutoff_prunes_every_push]
+            graph.wf_nodes(),
+            graph.wf_rows(),
+            source < graph.n(),
+            target.is_some() ==> target.unwrap() < graph.n(),
+            dist@.len() == graph.n(),
+            seen@.len() == graph.n(),
+            with_paths ==> paths@.len() == graph.n(),
+            !with_paths ==> paths@.len() == 0,
+            forall|it: FringeNode| #[trigger] heap_view(&fringe).count(it) > 0 ==> item_ok(*graph, weighted, source, hist, it),
+            chain_ok(*graph, weighted, source, hist),
+            forall|u: int| reported(dist@, u) ==> hist.contains((u as usize, #[trigger] dist@[u])),
+            forall|j: int| 0 <= j < hist.len() ==> (#[trigger] hist[j]).0 < dist@.len() && (feq(hist[j].1, f64_max()) || dist@[hist[j].0 as int] == hist[j].1),
+            forall|i: int, j: int| 0 <= i < j < hist.len() && (#[trigger] hist[i]).0 == (#[trigger] hist[j]).0 ==> feq(hist[i].1, f64_max()),
+            forall|it: FringeNode| #[trigger] heap_view(&fringe).count(it) > 0 ==> (it.node_index == source && fneg(it.distance) == 0.0f64) || within_cutoff(cutoff, fneg(it.distance)),
+            forall|j: int| 0 <= j < hist.len() ==> ((#[trigger] hist[j]).0 == source && hist[j].1 == 0.0f64) || within_cutoff(cutoff, hist[j].1),
+//@ before dist[v] = d;
+        let ghost dist0 = dist@;
+//@ after dist[v] = d;
+        proof {
+            let ghost h0 = hist;
+            hist = hist.push((v, d));
+            assert(item_ok(*graph, weighted, source, h0, fringe_item));
+            lemma_chain_push(*graph, weighted, source, h0, v, d);
+            assert forall|it: FringeNode| #[trigger] heap_view(&fringe).count(it) > 0 implies item_ok(*graph, weighted, source, hist, it) by {
+                lemma_item_mono(*graph, weighted, source, h0, (v, d), it);
+            }
+            lemma_reported_push(dist0, dist@, h0, v, d);
+            assert forall|i: int, j: int| 0 <= i < j < hist.len() && (#[trigger] hist[i]).0 == (#[trigger] hist[j]).0 implies feq(hist[i].1, f64_max()) by {
+                if j == h0.len() {
+                    assert(hist[i] == h0[i]);
+                    assert(feq(h0[i].1, f64_max()) || dist0[h0[i].0 as int] == h0[i].1);
+                } else {
+                    assert(hist[i] == h0[i] && hist[j] == h0[j]);
+                }
+            }
+        }
+        let ghost vpos: int = hist.len() - 1;
+//@ loop 2
+            invariant
+                v < graph.n(),
+                0 <= vpos < hist.len() && hist[vpos] == (v, dist@[v as int]),
+                graph.wf_nodes(),
+                graph.wf_rows(),
+                source < graph.n(),
+                target.is_some() ==> target.unwrap() < graph.n(),
+                dist@.len() == graph.n(),
+                seen@.len() == graph.n(),
+                with_paths ==> paths@.len() == graph.n(),
+                !with_paths ==> paths@.len() == 0,
+                forall|it: FringeNode| #[trigger] heap_view(&fringe).count(it) > 0 ==> item_ok(*graph, weighted, source, hist, it),
+                chain_ok(*graph, weighted, source, hist),
+                forall|u: int| reported(dist@, u) ==> hist.contains((u as usize, #[trigger] dist@[u])),
+                forall|j: int| 0 <= j < hist.len() ==> (#[trigger] hist[j]).0 < dist@.len() && (feq(hist[j].1, f64_max()) || dist@[hist[j].0 as int] == hist[j].1),
+                forall|i: int, j: int| 0 <= i < j < hist.len() && (#[trigger] hist[i]).0 == (#[trigger] hist[j]).0 ==> feq(hist[i].1, f64_max()),
+                forall|it: FringeNode| #[trigger] heap_view(&fringe).count(it) > 0 ==> (it.node_index == source && fneg(it.distance) == 0.0f64) || within_cutoff(cutoff, fneg(it.distance)),
+                forall|j: int| 0 <= j < hist.len() ==> ((#[trigger] hist[j]).0 == source && hist[j].1 == 0.0f64) || within_cutoff(cutoff, hist[j].1),
+//@ after let vu_dist = dist[v] + cost;
+            proof {
+                assert(graph.successors_vec@[v as int]@[row_it.index@] == *adj);
+                assert(extends(*graph, weighted, hist, vpos, u, vu_dist));
+                assert(u < graph.n());
+                assert(fneg(fneg(vu_dist)) == vu_dist);
+                assert(extends(*graph, weighted, hist, vpos, u, fneg(fneg(vu_dist))));
+            }
+//@ before #1 push_fringe_node(&mut count, &mut fringe, u, vu_dist);
+                    // machine arithmetic treated as mathematical: the push counter is an i32 that would need > 2^31 heap pushes to overflow
+                    assume(count < i32::MAX);
+//@ before #2 push_fringe_node(&mut count, &mut fringe, u, vu_dist);
+                    assume(count < i32::MAX);
+//@ after #1 push_fringe_node(&mut count, &mut fringe, u, vu_dist);
+                    proof {
+                        let itx = FringeNode { node_index: u, count: count, distance: fneg(vu_dist) };
+                        assert(fneg(itx.distance) == vu_dist);
+                        assert(extends(*graph, weighted, hist, vpos, itx.node_index, fneg(itx.distance)));
+                        assert(item_ok(*graph, weighted, source, hist, itx));
+                        assert(within_cutoff(cutoff, vu_dist));
+                    }
+//@ after #2 push_fringe_node(&mut count, &mut fringe, u, vu_dist);
+                    proof {
+                        let itx = FringeNode { node_index: u, count: count, distance: fneg(vu_dist) };
+                        assert(fneg(itx.distance) == vu_dist);
+                        assert(extends(*graph, weighted, hist, vpos, itx.node_index, fneg(itx.distance)));
+                        assert(item_ok(*graph, weighted, source, hist, itx));
+                        assert(within_cutoff(cutoff, vu_dist));
+                    }
 //@ end
 
 //@ extract fn src/algorithms/shortest_path/dijkstra.rs convert_shortest_path_info_vec_to_t_map nobody
